@@ -40,7 +40,9 @@ def rust_unescape(s):
 
 
 FIELD_TYPES = [("String", "str", False), ("i32", "num", False), ("f64", "num", False), ("u8", "num", False), ("Vec<String>", "arr", False),
-               ("Option<String>", "str", True), ("Option<i32>", "num", True), ("Vec<i32>", "arr", False), ("Option<Vec<String>>", "arr", True), ("u64", "num", False)]
+               ("Option<String>", "str", True), ("Option<i32>", "num", True), ("Vec<i32>", "arr", False), ("Option<Vec<String>>", "arr", True), ("u64", "num", False),
+               # constraints belong to the field itself, never to an Option buried below another constructor
+               ("Vec<Option<String>>", "arr", False), ("Vec<Option<i32>>", "arr", False), ("Option<Vec<Option<String>>>", "arr", True)]
 
 
 def gen_field(rnd, k):
